@@ -286,6 +286,7 @@ def tasks(tier):
     for n in ((1, 2) if tier == 'quick' else (1, 2, 3)):
         ts.append(Task(f'protocol.n{n}', t_protocol(n), extra={'spec_mod': P2.SPEC, 'bounded': f'{n} resting orders + one reaction order'},
                        overrides=dict(ov), max_paths=200000))
+    ts.append(Task('candidates', P2.t_candidates, extra={'spec_mod': P2.SPEC}, overrides=dict(ov)))
     # shared with C02: the matching continues on the later part of the split and a reaction order priced on it is filled there
     ts.append(Task('continuation', P2.t_continuation, extra={'spec_mod': P2.SPEC}, overrides=dict(ov), max_paths=20000))
     ts.append(Task('protocol.chunk', t_protocol_chunk(2), extra={'spec_mod': P2.SPEC, 'bounded': 'chunk of 2 minutes, one resting order then two candidates after each fill'},
